@@ -33,10 +33,14 @@ def main():
         for sub in ("molgri", "tests", "input"):
             if os.path.exists(os.path.join("/repo", sub)):
                 shutil.copytree(os.path.join("/repo", sub), os.path.join(d, sub), ignore=shutil.ignore_patterns("__pycache__", "*.pyc"))
+        if os.path.isdir(seed):
+            for f in os.listdir(seed):
+                if f.startswith("demo_"):
+                    shutil.copy(os.path.join(seed, f), os.path.join(d, f))
         if a.demo and os.path.isdir(seed):
             for f in os.listdir(seed):
                 if f.startswith("demo_") and f.endswith(".py"):
-                    pr = subprocess.run(["/venv/bin/python", os.path.join(seed, f)], cwd=d, env=dict(os.environ, PYTHONPATH=d), capture_output=True, text=True)
+                    pr = subprocess.run(["/venv/bin/python", os.path.join(d, f)], cwd=d, env=dict(os.environ, PYTHONPATH=d), capture_output=True, text=True)
                     print(f"demo {f} WITHOUT patch: exit {pr.returncode}")
         pr = subprocess.run(["patch", "-p1", "-s", "-i", patch], cwd=d, capture_output=True, text=True)
         if pr.returncode != 0:
@@ -45,7 +49,7 @@ def main():
         if a.demo and os.path.isdir(seed):
             for f in os.listdir(seed):
                 if f.startswith("demo_") and f.endswith(".py"):
-                    pr = subprocess.run(["/venv/bin/python", os.path.join(seed, f)], cwd=d, env=dict(os.environ, PYTHONPATH=d), capture_output=True, text=True)
+                    pr = subprocess.run(["/venv/bin/python", os.path.join(d, f)], cwd=d, env=dict(os.environ, PYTHONPATH=d), capture_output=True, text=True)
                     print(f"demo {f} WITH patch: exit {pr.returncode}: {(pr.stdout + pr.stderr).strip().splitlines()[-1][:200] if (pr.stdout + pr.stderr).strip() else ''}")
         for c in checks:
             if not c:
